@@ -15,9 +15,9 @@ from .seqexp import SeqError
 from .rustscan import ScanError
 
 HERE = os.path.dirname(os.path.dirname(os.path.abspath(__file__)))
-GEN = os.path.join(HERE, 'gen')
-EVID = os.path.join(HERE, 'evidence')
-REPLAY = os.path.join(HERE, 'replay')
+GEN = os.environ.get('GV_GEN_DIR', os.path.join(HERE, 'gen'))
+EVID = os.environ.get('GV_EVID_DIR', os.path.join(HERE, 'evidence'))
+REPLAY = os.environ.get('GV_REPLAY_DIR', os.path.join(HERE, 'replay'))
 REPO = os.environ.get('GECS_REPO', '/repo')
 
 ORIGIN_FILES = {
@@ -139,7 +139,11 @@ class Failure:
                     tags.update(t)
             clause_lines.append(ls)
         if not tags and self.fn:
+            # an untagged obligation (e.g. an intermediate assert of a proof hint, an overflow check, a callee precondition):
+            # some postcondition of this function is no longer established, we do not know which -> every property the function serves
             tags.update(self.fn.get('props', []))
+            for ln in range(self.fn['start_line'], self.fn['end_line'] + 1):
+                tags.update(gen.linemap[ln - 1][1])
         self.tags = tags
         # the clause/statement that failed: prefer a span whose line carries a tag or sits in a spec, else the primary
         self.clause_line = None
@@ -154,9 +158,11 @@ class Failure:
         self.origin = origin_str(gen.linemap[self.line - 1][0]) if self.line and self.line <= len(gen.linemap) else None
         self.clause_origin = origin_str(gen.linemap[self.clause_line - 1][0]) if self.clause_line and self.clause_line <= len(gen.linemap) else None
         if self.fn and (self.origin is None or self.origin.startswith('verif/')):
-            so = gen.linemap[self.fn['sig_line'] - 1][0] if self.fn.get('sig_line') else None
-            if so and not so.startswith('C:'):
-                self.origin = origin_str(so)
+            for ln in range(self.fn.get('sig_line', self.fn['start_line']), self.fn['end_line'] + 1):
+                so = gen.linemap[ln - 1][0]
+                if so and not so.startswith('C:'):
+                    self.origin = origin_str(so)
+                    break
         if self.origin is None and self.fn:
             # fall back to the nearest repo-origin line inside the function
             for ln in range(self.line, self.fn['start_line'] - 1, -1):
